@@ -13,7 +13,7 @@ MANIFEST = dict(
               "wall-clock measure for the outer loop) + watchdog, crash and race-detector harness on the real trigger"
               " + source-to-Gallina translation of internal/csm's node level proved equivalent to the model (SrcTie)",
     text="Machine-checked: for every well-formed expression, every zone table with offsets within +-26h and every prev in "
-         "[0, MaxInt64] the model of NextFireTime returns a fire time strictly after prev or expiry, never its out-of-fuel value: "
+         "[MinInt64, MaxInt64] the model of NextFireTime returns a fire time strictly after prev or expiry, never its out-of-fuel value: "
          "the state machine search terminates (a ranking function counting the months left until the last admissible year decreases "
          "at every node step) and so does the DST candidate loop. Purity holds of the model by construction. The tie to the code: "
          "every harness evaluation runs under a watchdog (10 s per call) with crash detection, expressions that can never fire again "
